@@ -185,7 +185,7 @@ var (
 var cBaseTypes = map[string]types.Type{
 	"byte": types.Typ[types.Uint8], "uint8_t": types.Typ[types.Uint8], "unsigned char": types.Typ[types.Uint8], "char": types.Typ[types.Int8],
 	"int": types.Typ[types.Int32], "unsigned int": types.Typ[types.Uint32], "uint32_t": types.Typ[types.Uint32], "unsigned": types.Typ[types.Uint32],
-	"limb_t": types.Typ[types.Uint64], "uint64_t": types.Typ[types.Uint64], "size_t": types.Typ[types.Uint64], "unsigned long": types.Typ[types.Uint64],
+	"limb_t": types.Typ[types.Uint64], "uint64_t": types.Typ[types.Uint64], "size_t": types.Typ[types.Uint64], "unsigned long": types.Typ[types.Uint64], "unsigned long long": types.Typ[types.Uint64], "long long": types.Typ[types.Int64],
 	"long": types.Typ[types.Int64], "uptr_t": types.Typ[types.Uint64], "bool_t": types.Typ[types.Uint64],
 	"bool": types.Typ[types.Bool], "_Bool": types.Typ[types.Bool],
 	"ERROR": ctError, "Fr": ctFr, "Fp": ctFp, "Fp2": ctFp2, "Fp12": ctFp12, "E1": ctE1, "E2": ctE2,
@@ -1563,6 +1563,11 @@ func (g *CGen) arith(op string, a, b cVal) cVal {
 		if signed {
 			// signed overflow is undefined behaviour in C: it must not happen
 			g.obl("overflow", "", sAnd(app("<=", g.M.IntLit(lo, nil), raw), app("<=", raw, g.M.IntLit(hi, nil))))
+			return cVal{S: raw, T: t}
+		}
+		if g.spec.NoWrap && op != "-" {
+			// unsigned wrap-around is defined in C, but this function's contract says it relies on it never happening
+			g.obl("nowrap", "", app("<=", raw, g.M.IntLit(hi, nil)))
 			return cVal{S: raw, T: t}
 		}
 		return cVal{S: g.binop(op, a.S, bS, t, t), T: t}
